@@ -12,12 +12,12 @@ def _c04_case(c):
 import copyvm as _copyvm
 
 CONFIG = {
-    "post_model": _copyvm.vm_sample("GC04"),
+    "post_model": _copyvm.vm_sample("GC04", runfn="run_opt_h", imports=" Model.CopyHold"),
     "properties_file": "Properties/C04.v",
-    "proof_files": ["Base/Prelude.v", "Proofs/CopySpec.v", "Proofs/CopyAcct.v", "Proofs/CopyOpt.v",
+    "proof_files": ["Base/Prelude.v", "Proofs/CopySpec.v", "Proofs/CopyAcct.v", "Proofs/CopyOpt.v", "Proofs/CopyAbort.v", "Proofs/CopyHold.v", "Proofs/CopySrcOrder.v",
                     # the permit protocol (C02's protocol part): C04_permits_conserved / C04_inflight_bounded are restated in Properties/C04.v
-                    "Model/CopyImpl.v", "Proofs/CopyImplBase.v", "Proofs/CopyImplInv.v", "Properties/C02_protocol.v"],
-    "model_files": ["Generated/GC04.v", "Model/CopySpec.v", "Model/CopyTop.v", "Model/CopyOpt.v", "Model/CopyCancel.v"],
+                    "Model/CopyImpl.v", "Proofs/CopyImplBase.v", "Proofs/CopyImplInv.v", "Properties/C02_protocol.v", "Proofs/CopyPermitsFinal.v"],
+    "model_files": ["Generated/GC04.v", "Model/CopySpec.v", "Model/CopyTop.v", "Model/CopyOpt.v", "Model/CopyCancel.v", "Model/CopyHold.v"],
     "extract": "XC04.v",
     "ml_main": "c01_main.ml",
     "harness_test": True,
@@ -29,14 +29,16 @@ CONFIG = {
         "optional callbacks: which of PreCopy/PostCopy/OnCopySkipped/OnMounted/MountFrom (and FindSuccessors, MapRoot) are nil is chosen per run, including all nil = default options; a recorded trace then has no events for nil callbacks and is elaborated by Model/CopyOpt.step_opt (the invocation points of nil callbacks are inserted, an event of a nil callback is rejected); the *_any_callbacks theorems hold for every such choice",
         "ExtendedCopyGraph / ExtendedCopy: the roots above the node (generator's predecessor relation; findRoots itself is C03's) are the model's c_root :: c_xroots, dispatched together and sharing tracker, proxy and limiter; the final Tag of ExtendedCopy is checked by the oracle only",
         "semaphore.Weighted / errgroup / syncutil.Go / LimitedRegion: in Model/CopySpec.v a task is 'active' between the first and last visible event of a segment in which it certainly holds a permit, and at most K tasks are active (a guard of the acceptor, checked against every recorded trace); the permit protocol itself is proved on Model/CopyImpl.v (C02's protocol part, tied to the real syncutil/Tracker by cmd/goimpl): C04_permits_conserved, C04_inflight_bounded_by_permits are restated in Properties/C04.v and their proofs are part of C04's proof layer; C04_inflight_on_trace links the model counters to the trace (opens minus closes)",
+        "permit-holding intervals (Model/CopyHold.v, the acceptor C04's runner uses): a task certainly holds a permit while its node's phase is active, and a LEAF (no successor after removeForeignLayers) also while it waits for PreCopy, because copyGraph.fn calls region.End() only for nodes with successors; a permit is acquired at dst.Exists (at the latest) and at PreCopy / MountFrom of a non-leaf (region.Start()); guard holders < K at every acquisition. Sound for every schedule because a task keeps its permit between two of its own recorded events; the release itself (deferred lr.End()) is not a visible event, so the overlay under-counts after a task's last event",
+        "the real semaphore is read only in CopyGraph runs made through the verif hook VerifCopyGraphWithLimiter (copyGraph with a limiter the harness created, of the size the oracle expects): free permits are counted inside the recorder's critical section at every event (TryAcquire until it fails, then Release) and after the return; Copy / ExtendedCopy(Graph) create their limiter internally and are covered by the in-flight gauges only",
         "status.Tracker.TryCommit single ownership is modelled as one phase per node, tied to the code by trace acceptance (a second Exists/Fetch/Push of a node is rejected) and by the oracle's per-node counters",
         "a source read is in flight from the call of Fetch until Close of the returned reader (for manifests Close also joins the cache push); a destination operation from call to return of Exists/Push/PushReference/Tag",
         "registry.Mounter destinations are modelled and exercised through an in-harness Mounter wrapper (PRNG decides whether a candidate repository has the blob); the upload inside Mount is one destination operation",
         "content.Successors = generator's edge list (parameter g_succ), as in C01",
         "goroutine scheduling: theorems quantify over all interleavings of visible events accepted by the transition system; the runs use free-running goroutines with PRNG latencies/yields and PRNG-controlled schedules under testing/synctest",
     ],
-    "level_text": "Coq theorems over every trace accepted by the copyGraph transition system (all graphs, initial destinations, K, modes, interleavings): at every prefix at most K source reads and K destination operations in flight (K = 3 regenerated from copy.go when Concurrency <= 0); per node at most one source fetch and one push; PreCopy/PostCopy/OnCopySkipped at most once per node; a transferred node of a successful copy has exactly one PreCopy before and exactly one PostCopy after its push and no OnCopySkipped; PostCopy after the terminal notification of every successor; a failing callback excludes a successful return. Tied to copy.go by trace acceptance of recorded runs (contention-heavy budget) and an independent monitor (gauges, counters, order, error identity).",
-    "level_note": "the limiter hand-off protocol (region.End/Start, permit conservation) is proved on the protocol model of C02 (restated as C04_permits_conserved / C04_inflight_bounded_by_permits) and observed through the in-flight gauges for every K in 1..8 and <= 0 (coverage floor: peak = K reached); 'no blob fetched more than once' holds for copyGraph only -- Copy's prologue can read the root / its config a second time (known finding prologue-read-twice, C04_single_fetch_refuted_by_prologue); 'aborts with that error': the theorem gives 'no successful return', identity of the error and loss in ExtendedCopy are oracle checks, promptness of the abort is C02's; 'the returned error is the callback's error' is checked by the oracle on every run (the theorem gives 'no successful return after a failing callback'); same store pairings as C01",
+    "level_text": "Coq theorems over every trace accepted by the copyGraph transition system (all graphs, initial destinations, K, modes, interleavings, every choice of nil callbacks): at every prefix at most K source reads and K destination operations in flight, and (on the permit-holding overlay the runner replays on) at most K permits held with the operations in flight covered by them (K = the limiter size translated from the syntax of copyGraph AND ExtendedCopyGraph: 3 when Concurrency <= 0); per node at most one source fetch, one push, one upload counting the upload inside Mount; every callback at most once per node, PostCopy / OnCopySkipped / OnMounted exclude each other and every visited node of a successful copy gets exactly one of them (except the present ReferencePusher root); a transferred node has exactly one PreCopy before and one PostCopy after its push; per-node order PreCopy, Fetch, Push, Close, PostCopy as in the sources (call sequences regenerated); PostCopy after the terminal notification of every successor; a failing callback excludes a successful return AND any copy of a direct predecessor of the failed node, before or after the failure. On the protocol model (CopyImpl): permits conserved, in-flight <= permits held, all K permits free once the call has returned. Tied to copy.go / syncutil by trace acceptance of recorded runs (contention, simultaneous-claim, single-P and controlled schedules), by the real semaphore read at every event through a verif hook, and by an independent monitor (gauges, counters, order, error identity, abort, permits)",
+    "level_note": "modelled and proved: everything in level_text. Only oracle-checked: identity of the returned error with the callback's error (callback-error-lost); the abort clause for Copy / ExtendedCopy goes through the same oracle clause copy-past-failed-successor as CopyGraph, promptness of the abort is C02's; permits of the real semaphore (op-without-permit, permit-leak) in CopyGraph runs through the hook only (the model-side counterparts are C04_inflight_bounded_by_permits / C04_all_permits_free_at_return on CopyImpl and C04_permits_held_bounded / C04_no_permit_held_at_success on the overlay; the overlay's holders are not compared number by number with the semaphore -- real permits taken >= certain holders). Not modelled: PreCopy answering SkipNode (never produced by the generated callbacks), the ReferencePusher blob root falling back inside Mount, a failing PreCopy inside Mount keeps the real Mount in flight while the model drops it (C04_inflight_on_trace states the destination bound for traces without a failed callback; the gauges are checked by the oracle on every run), user FindSuccessors other than content.Successors, MaxMetadataBytes, the final Tag of ExtendedCopy (oracle only). 'no blob fetched more than once' holds for copyGraph only -- Copy's prologue can read the root / its config a second time (known finding prologue-read-twice, C04_single_fetch_refuted_by_prologue). Anchors are informational (evidence changed_anchors); edits to the modelled call order / limiter sizing break layer P (Proofs/CopyCode.v) or T (kind c04_limitersize). Same store pairings as C01",
     "technique": "machine-checked proof in Coq (invariants and one-shot arguments over all accepted traces) + constant regenerated from copy.go + trace-acceptance correspondence + independent monitor oracle",
-    "explanation": "recorded traces of Copy/CopyGraph under contention (K=1,2, wide graphs) must be runs of Model/CopySpec.v whose guards include the active-task bound; wrappers keep in-flight gauges and per-node counters; callback-failure injection checks the error surfaces",
+    "explanation": "recorded traces of Copy/CopyGraph/ExtendedCopy(Graph) under contention (K=1..8, wide fans with duplicate and shared successors, a FindSuccessors barrier, simultaneous claims of one descriptor, single-P schedules, synctest-controlled schedules) must be runs of Model/CopyHold.v (CopySpec + permit-holding guard); wrappers keep in-flight gauges and per-node counters and read the limiter's free permits; callback-failure injection checks that the error surfaces and that nothing above the failed node is copied",
 }
